@@ -688,6 +688,11 @@ func normalizePath(dst, src []byte) []byte {
 		b = b[:len(b)-n+nn]
 	}
 
+	// remove trailing /.
+	if len(b) >= 2 && b[len(b)-2] == '/' && b[len(b)-1] == '.' {
+		b = b[:len(b)-1]
+	}
+
 	// remove trailing /foo/..
 	n := bytes.LastIndex(b, strSlashDotDot)
 	if n >= 0 && n+len(strSlashDotDot) == len(b) {
